@@ -51,6 +51,10 @@ def gen_cases(rng, tier, count=None):
         if rng.random() < 0.25:
             # one very deep path (labels grow like K^depth: beyond 2^63 from depth 28 (K=5) / 40 (K=3) / 64 (K=2))
             c.update(chain=str(rng.choice(["last", "random"])), p_deepen=0.0, steps=int(rng.integers(45, 90)))
+        elif rng.random() < 0.3:
+            # a second partition of the same class over another box is alive and grows in between (class-level lists)
+            c["companion"] = {"box": C.gen_box(rng, dim if rng.random() < 0.7 else int(rng.integers(1, 4)))[0],
+                              "built_first": bool(rng.random() < 0.5)}
         out.append(c)
     # the light algorithms once more, with the recommendation asked after every round (a query that touches the
     # per-depth lists does so in particular rounds only) and value-poor reward histories
